@@ -112,3 +112,44 @@ def handleJwt (toks : List String) (tbl : Table) : Option String :=
   | _ => none
 
 end Driver
+
+namespace Driver
+
+def encConsts : EncConsts :=
+  { gcmIvLen := gcmKwIvBits / 8, saltLen := pbes2SaltLen, defaultP2c := (pbes2DefaultP2c.head?.map (·.2)).getD 0 }
+
+def showDraws (d : Draws) : String := ",".intercalate (d.tokens.map toString) ++ "/" ++ toString d.ephemerals
+
+def handleJweEnc (toks : List String) (tbl : Table) : Option String :=
+  let P := oraclePrims tbl
+  match toks with
+  | ["jwe.ec", strict, allowed, extra, keyarg, sender, prot, pt] => do
+    let reg ← readJweReg strict allowed extra "1"
+    let key ← readKeyArg keyarg
+    let sk ← if sender == "~" then some none else (readKey sender).map some
+    let p ← match ← readJVal prot with | .obj d => some d | _ => none
+    let plaintext ← hexToBytes pt
+    some (showRes ((encryptCompact P env keyEnv keyTables encConsts reg p plaintext key sk).map fun (t, e) =>
+      bytesToHex t ++ " " ++ bytesToHex e.cek ++ " " ++ showDraws e.draws))
+  | ["jwe.ej", strict, allowed, extra, keyarg, sender, kind, prot, unprot, aad, recips, pt] => do
+    let reg ← readJweReg strict allowed extra "1"
+    let key ← if keyarg == "~" then some none else (readKeyArg keyarg).map some
+    let sk ← if sender == "~" then some none else (readKey sender).map some
+    let p ← match ← readJVal prot with | .obj d => some d | _ => none
+    let u ← if unprot == "~" then some none else match ← readJVal unprot with | .obj d => some (some d) | _ => none
+    let a ← if aad == "~" then some none else (hexToBytes aad).map some
+    let plaintext ← hexToBytes pt
+    -- recipients: `|`-free list `hdrJVal@key` separated by `#`; `~` for absent parts
+    let rs ← (recips.splitOn "#").mapM fun item =>
+      match item.splitOn "@" with
+      | [h, k] => do
+        let hd ← if h == "~" then some none else match ← readJVal h with | .obj d => some (some d) | _ => none
+        let kk ← if k == "~" then some none else (readKey k).map some
+        some (hd, kk)
+      | _ => none
+    let o : EObj := { kind := if kind == "general" then .general else .flat, prot := p, unprotected := u, aad := a }
+    some (showRes ((encryptJson P env keyEnv keyTables encConsts reg o rs plaintext key sk).map fun (v, e) =>
+      showJVal v ++ " " ++ bytesToHex e.cek ++ " " ++ showDraws e.draws))
+  | _ => none
+
+end Driver
